@@ -3,10 +3,10 @@ package props
 import (
 	"encoding/binary"
 	"encoding/json"
-	"net/url"
 	"fmt"
 	"io"
 	"net/http"
+	"net/url"
 	"strings"
 
 	"connectrpc.com/vanguard/verifharness/drive"
